@@ -395,6 +395,38 @@ bool validate_shards(const protocol::Manifest& manifest) {
     return true;
 }
 
+// A manifest for a chunk this node already holds must describe the held bytes: adopting key
+// shares that do not decrypt the local copy to the manifest's content hash would turn every
+// later local read of that chunk into garbage.
+bool manifest_describes_record(const protocol::Manifest& manifest, const ChunkRecord& record) {
+    if (!record.encrypted) {
+        return true;
+    }
+    if (record.nonce != manifest.nonce.bytes) {
+        return false;
+    }
+
+    std::vector<crypto::ShamirShare> shares;
+    shares.reserve(manifest.shards.size());
+    for (const auto& shard : manifest.shards) {
+        crypto::ShamirShare share{};
+        share.index = shard.index;
+        share.value = shard.value;
+        shares.push_back(share);
+    }
+
+    crypto::Key chunk_key{};
+    chunk_key.bytes = crypto::Shamir::combine(shares, manifest.threshold);
+    const auto plaintext = crypto::CryptoManager::decrypt_with_key(chunk_key,
+                                                                  manifest.chunk_id,
+                                                                  std::span<const std::uint8_t>(record.data),
+                                                                  manifest.nonce);
+    if (!plaintext.has_value()) {
+        return false;
+    }
+    return crypto::Sha256::digest(std::span<const std::uint8_t>(*plaintext)) == manifest.chunk_hash;
+}
+
 std::optional<std::pair<std::string, std::uint16_t>> parse_endpoint(const std::string& address) {
     if (address.empty()) {
         return std::nullopt;
@@ -1675,6 +1707,10 @@ bool Node::ingest_manifest(const std::string& manifest_uri) {
 
     {
         SchedulerLock lock(scheduler_mutex_);
+        const auto held = chunk_store_.get_record(manifest.chunk_id);
+        if (held.has_value() && !manifest_describes_record(manifest, *held)) {
+            return false;
+        }
         manifest_cache_[chunk_id_to_string(manifest.chunk_id)] = manifest;
         dht_.publish_shards(manifest.chunk_id, manifest.shards, manifest.threshold, manifest.total_shares, *ttl);
     }
@@ -2499,9 +2535,14 @@ void Node::handle_announce(const protocol::AnnouncePayload& payload,
     {
         SchedulerLock lock(scheduler_mutex_);
         const auto chunk_key = chunk_id_to_string(manifest.chunk_id);
-        manifest_cache_[chunk_key] = manifest;
-        dht_.publish_shards(manifest.chunk_id, manifest.shards, manifest.threshold, manifest.total_shares, *ttl_opt);
-        update_swarm_plan(manifest);
+        // Another publisher's manifest for a chunk held here names a provider, but its key
+        // shares belong to that publisher's copy, not to the bytes this node holds.
+        const auto held = chunk_store_.get_record(manifest.chunk_id);
+        if (!held.has_value() || manifest_describes_record(manifest, *held)) {
+            manifest_cache_[chunk_key] = manifest;
+            dht_.publish_shards(manifest.chunk_id, manifest.shards, manifest.threshold, manifest.total_shares, *ttl_opt);
+            update_swarm_plan(manifest);
+        }
         note_peer_seed(manifest.chunk_id, sender);
         clear_announce_failures(sender);
 
